@@ -261,8 +261,11 @@ theorem openElf_ok {env : Env} {data : Bytes} {f : ElfFile}
     simp [pure, Except.pure] at hcfg
     rw [← hcfg]
   obtain ⟨ndx, -, h⟩ := bind_ok.1 h
-  obtain ⟨sh, -, h⟩ := bind_ok.1 h
   refine ⟨cfg, hc ▸ hcls, ?_⟩
+  by_cases hz : (ndx == 0) = true
+  · simp [hz, pure, Except.pure] at h; subst h; exact ⟨rfl, rfl⟩
+  simp only [hz, Bool.false_eq_true, if_false] at h
+  obtain ⟨sh, -, h⟩ := bind_ok.1 h
   cases sh with
   | none => simp [pure, Except.pure] at h; subst h; exact ⟨rfl, rfl⟩
   | some st =>
@@ -671,6 +674,7 @@ theorem openElf_only (env : Env) (data : Bytes) :
   refine Only.bind (Only.ok _) ?_
   rintro cfg' -
   refine Only.bind (getShstrndx_only hok) (fun ndx _ => ?_)
+  refine Only.ite (fun _ => Only.pure _) (fun _ => ?_)
   refine Only.bind (getSectionHeader_only hok ndx) (fun osh hosh => ?_)
   cases osh with
   | none => exact Only.pure _
@@ -745,13 +749,6 @@ theorem nf_getString (data : Bytes) (st : Val) (off : Nat) : NF (getString data 
   refine Only.bind (nf_getNat _ _) (fun _ _ => Only.bind (nf_parseCStringAt _ _) (fun r _ => ?_))
   cases r <;> exact Only.pure _
 
-theorem nf_getSectionName (data : Bytes) (shstr sh : Option Val) : NF (getSectionName data shstr sh) := by
-  unfold getSectionName
-  cases shstr with
-  | none => exact Only.throw (by decide)
-  | some st =>
-    exact Only.bind (nf_subscript _ _) (fun _ _ => Only.bind (nf_asNat _) (fun _ _ => nf_getString _ _ _))
-
 theorem nf_sectionOffset (S : ElfStructs) (hdr : Val) (n : Nat) : NF (sectionOffset S hdr n) := by
   unfold sectionOffset
   refine Only.bind (nf_getNat _ _) (fun _ _ => Only.bind (nf_getNat _ _) (fun _ _ =>
@@ -765,6 +762,28 @@ theorem nf_getSectionHeader (env : Env) (c : ElfCfg) (data : Bytes) (hdr : Val) 
   refine Only.bind (nf_sectionOffset _ _ _) (fun pos _ => ?_)
   refine Only.ite (fun _ => Only.pure _) (fun _ => ?_)
   exact Only.bind (nf_structParseAt (shdr_tame c true) data pos) (fun _ _ => Only.pure _)
+
+theorem nf_getShstrndx (env : Env) (c : ElfCfg) (data : Bytes) (hdr : Val) :
+    NF (getShstrndx env (elfStructs c) data hdr) := by
+  unfold getShstrndx
+  refine Only.bind (nf_getNat _ _) (fun x _ => ?_)
+  refine Only.ite (fun _ => Only.pure _) (fun _ => ?_)
+  refine Only.bind (nf_getSectionHeader _ _ _ _ _) (fun oh _ => ?_)
+  cases oh with
+  | none => exact Only.throw (by decide)
+  | some h0 => exact nf_getNat _ _
+
+/-- (statement follows the definition: since the repair of `no-name-table`, `getSectionName` consults
+    `get_shstrndx()` when there is no table object, so it takes the file's header and structures) -/
+theorem nf_getSectionName (env : Env) (c : ElfCfg) (data : Bytes) (hdr : Val) (shstr sh : Option Val) :
+    NF (getSectionName env (elfStructs c) data hdr shstr sh) := by
+  unfold getSectionName
+  cases shstr with
+  | none =>
+    refine Only.bind (nf_getShstrndx _ _ _ _) (fun ndx _ => ?_)
+    exact Only.ite (fun _ => Only.pure _) (fun _ => Only.throw (by decide))
+  | some st =>
+    exact Only.bind (nf_subscript _ _) (fun _ _ => Only.bind (nf_asNat _) (fun _ _ => nf_getString _ _ _))
 
 theorem nf_sectionInit (env : Env) (c : ElfCfg) (data : Bytes) (sh : Val) :
     NF (sectionInit env (elfStructs c) data sh) := by
@@ -852,7 +871,7 @@ theorem makeSection_nf (env : Env) (c : ElfCfg) (data : Bytes) (hdr : Val) (shst
   | succ fuel ih =>
     intro osh hrank
     rw [makeSection]
-    refine Only.bind (nf_getSectionName _ _ _) (fun name _ => ?_)
+    refine Only.bind (nf_getSectionName _ _ _ _ _ _) (fun name _ => ?_)
     cases osh with
     | none => exact Only.throw (by decide)
     | some sh =>
